@@ -5,7 +5,7 @@
 set -u
 P=$1; N=$2
 SRC=/tmp/seed/out/$P/$N
-WT=/tmp/confirm-wt
+WT=/tmp/confirm-wt${SEED_TAG:-}
 LOG=/tmp/confirm-$P-$N.log
 export CARGO_NET_OFFLINE=true
 [ -n "${SEED_RUSTFLAGS:-}" ] && export RUSTFLAGS="$SEED_RUSTFLAGS"
